@@ -23,7 +23,9 @@ RULE = ("linecol: all texts of length <= 4 (quick) / 5 (thorough) over the 7-sym
         "final line feed (there the error must be on the fault line); a multi-line #bankdef block (main or included banks.asm, `name = v` or "
         "`#name v` fields) gets an unknown / duplicate / ill-valued field at every index and the error must be that field's name token; the ISA "
         "has an asm-block rule and a rule calling a user function with an assertion (function next to the rules or in the library file) so that "
-        "message trees nest across two or three files; block comments (single-line, or opened on earlier lines and ending on the fault line) "
+        "message trees nest across two or three files; an overloaded mnemonic with 2..4 typed candidates of distinct sizes and a sub-rule with "
+        "alternatives, so that an out-of-range operand makes ALL candidates fail (the fused top-level error must itself be located on the "
+        "instruction); block comments (single-line, or opened on earlier lines and ending on the fault line) "
         "stand in front of the faulty statement and the first error must lie within the statement's own tokens; include chains 1..4 deep with "
         "the #include of a missing file in the file at every depth (error = the file-name token of that #include, in the file containing it); "
         "message trees are checked as a whole: and every message is checked as print_all shows it inside its whole tree (file name, "
